@@ -9,12 +9,17 @@ package main
 import (
 	"go/constant"
 	"go/token"
+	"go/types"
+	"sort"
 	"strings"
 
 	"golang.org/x/tools/go/ssa"
 )
 
 type kenv struct {
+	// cur: constants held by local variables on the path being explored (class tags computed
+	// into a variable before they are switched on)
+	cur     map[*ssa.Alloc]constant.Value
 	x       *FnIndex
 	kindOf  map[ssa.Value]string // reflect.Value parameter -> Kind().String()
 	intOf   map[ssa.Value]int64  // int parameter -> value
@@ -22,8 +27,38 @@ type kenv struct {
 	mapKeys map[string]bool      // keys of the string->string table consulted with comma-ok (TypeMap)
 }
 
+// pathConst: the constant a variable read holds on the current path.
+func (e *kenv) pathConst(v ssa.Value) (constant.Value, bool) {
+	for i := 0; i < 6; i++ {
+		u, ok := v.(*ssa.UnOp)
+		if !ok || u.Op != token.MUL {
+			return nil, false
+		}
+		al, ok := e.x.ResolveAddr(u.X).(*ssa.Alloc)
+		if !ok {
+			return nil, false
+		}
+		if c, ok := e.cur[al]; ok {
+			return c, true
+		}
+		// a copy of another variable
+		st := e.x.stores[al]
+		if len(st) != 1 {
+			return nil, false
+		}
+		v = st[0].Val
+	}
+	return nil, false
+}
+
 func (e *kenv) evalString(v ssa.Value) (string, bool) {
+	if c, ok := e.pathConst(v); ok && c.Kind() == constant.String {
+		return constant.StringVal(c), true
+	}
 	v = e.x.Origin(v)
+	if c, ok := e.pathConst(v); ok && c.Kind() == constant.String {
+		return constant.StringVal(c), true
+	}
 	if s, ok := constString(v); ok {
 		return s, true
 	}
@@ -53,7 +88,15 @@ func (e *kenv) evalString(v ssa.Value) (string, bool) {
 }
 
 func (e *kenv) evalInt(v ssa.Value) (int64, bool) {
+	if c, ok := e.pathConst(v); ok && c.Kind() == constant.Int {
+		k, exact := constant.Int64Val(c)
+		return k, exact
+	}
 	v = e.x.Origin(v)
+	if c, ok := e.pathConst(v); ok && c.Kind() == constant.Int {
+		k, exact := constant.Int64Val(c)
+		return k, exact
+	}
 	if k, ok := constInt(v); ok {
 		return k, true
 	}
@@ -74,7 +117,13 @@ func (e *kenv) evalKindName(v ssa.Value) (string, bool) {
 }
 
 func (e *kenv) evalBool(v ssa.Value, kindConst map[int64]string) (bool, bool) {
+	if c, ok := e.pathConst(v); ok && c.Kind() == constant.Bool {
+		return constant.BoolVal(c), true
+	}
 	v = e.x.Origin(v)
+	if c, ok := e.pathConst(v); ok && c.Kind() == constant.Bool {
+		return constant.BoolVal(c), true
+	}
 	if b, ok := constBool(v); ok {
 		return b, true
 	}
@@ -131,26 +180,87 @@ type kreach struct {
 // non-nil, names CFG edges whose traversal sets the path's mark.
 func (e *kenv) explore(fn *ssa.Function, kindConst map[int64]string, markEdge func(b *ssa.BasicBlock, succ int) bool) []kreach {
 	type st struct {
-		b *ssa.BasicBlock
-		m bool
+		b   *ssa.BasicBlock
+		m   bool
+		env string
+	}
+	envs := map[string]map[*ssa.Alloc]constant.Value{"": {}}
+	keyOf := func(env map[*ssa.Alloc]constant.Value) string {
+		var parts []string
+		for a, c := range env {
+			parts = append(parts, e.x.allocName(a)+"="+c.ExactString())
+		}
+		sort.Strings(parts)
+		k := strings.Join(parts, ";")
+		if _, ok := envs[k]; !ok {
+			cp := map[*ssa.Alloc]constant.Value{}
+			for a, c := range env {
+				cp[a] = c
+			}
+			envs[k] = cp
+		}
+		return k
 	}
 	seen := map[st]bool{}
+	seenRet := map[kreach]bool{}
 	var out []kreach
 	var work []st
 	push := func(s st) {
-		if !seen[s] {
+		if !seen[s] && len(seen) < 20000 {
 			seen[s] = true
 			work = append(work, s)
 		}
 	}
-	push(st{fn.Blocks[0], false})
+	push(st{fn.Blocks[0], false, ""})
 	for len(work) > 0 {
 		s := work[len(work)-1]
 		work = work[:len(work)-1]
+		// the constants assigned to local variables along this block
+		env := map[*ssa.Alloc]constant.Value{}
+		for a, c := range envs[s.env] {
+			env[a] = c
+		}
+		e.cur = env
+		for _, in := range s.b.Instrs {
+			stI, ok := in.(*ssa.Store)
+			if !ok {
+				continue
+			}
+			al, ok := stI.Addr.(*ssa.Alloc)
+			if !ok || al.Heap {
+				continue
+			}
+			switch bt := al.Type().Underlying().(*types.Pointer).Elem().Underlying().(type) {
+			case *types.Basic:
+				switch {
+				case bt.Info()&types.IsString != 0:
+					if v, ok := e.evalString(stI.Val); ok {
+						env[al] = constant.MakeString(v)
+						continue
+					}
+				case bt.Info()&types.IsInteger != 0:
+					if v, ok := e.evalInt(stI.Val); ok {
+						env[al] = constant.MakeInt64(v)
+						continue
+					}
+				case bt.Info()&types.IsBoolean != 0:
+					if v, ok := e.evalBool(stI.Val, kindConst); ok {
+						env[al] = constant.MakeBool(v)
+						continue
+					}
+				}
+			}
+			delete(env, al)
+		}
+		ek := keyOf(env)
 		last := s.b.Instrs[len(s.b.Instrs)-1]
 		switch t := last.(type) {
 		case *ssa.Return:
-			out = append(out, kreach{t, s.m})
+			r := kreach{t, s.m}
+			if !seenRet[r] {
+				seenRet[r] = true
+				out = append(out, r)
+			}
 		case *ssa.If:
 			val, known := e.evalBool(t.Cond, kindConst)
 			for i, n := range s.b.Succs {
@@ -161,7 +271,7 @@ func (e *kenv) explore(fn *ssa.Function, kindConst map[int64]string, markEdge fu
 				if markEdge != nil && markEdge(s.b, i) {
 					m = true
 				}
-				push(st{n, m})
+				push(st{n, m, ek})
 			}
 		default:
 			for i, n := range s.b.Succs {
@@ -169,9 +279,10 @@ func (e *kenv) explore(fn *ssa.Function, kindConst map[int64]string, markEdge fu
 				if markEdge != nil && markEdge(s.b, i) {
 					m = true
 				}
-				push(st{n, m})
+				push(st{n, m, ek})
 			}
 		}
 	}
+	e.cur = nil
 	return out
 }
